@@ -17,6 +17,7 @@ VARIABLE l                     \* next line of the trace
 tvars == <<mcvars, l>>
 
 RealUdpSched == <<500, 1000, 2000, 4000, 8000, 16000>>
+RealUdpSchedUs == <<500000, 1000000, 2000000, 4000000, 8000000, 16000000>>     \* the same in microseconds
 
 TInit == MCInit /\ l = 1
 
